@@ -651,6 +651,10 @@ func evalBetween(node *BetweenExpression, env *Environment) Object {
 }
 
 func evalIn(node *InExpression, env *Environment) Object {
+	if len(node.Range) == 0 {
+		return newError("IN requires at least one operand in its list")
+	}
+
 	val := evalIdentifierOperand(node.Left, env)
 	if isError(val) {
 		return val
